@@ -45,7 +45,7 @@ fn construct<T: BE>(case: &Value, out: &mut Out) -> Option<Tridiagonal<T>> {
     match guarded(|| tri_from::<T>(tj, gets(case, "ctor"))) {
         Ok(m) => { if ints { for w in 0..(if T::CX { 2 } else { 1 }) {
                        let want = if w == 0 { re_tri(tj) } else { im_tri(tj) };
-                       out.ev(json!({"op": "built", "ctor": gets(case, "ctor"), "ty": T::NAME, "cid": cid, "k": -1, "panic": false, "post": jtri(&m, if w == 0 { Part::Re } else { Part::Im }),
+                       out.ev(json!({"op": "built", "ctor": gets(case, "ctor"), "ty": T::NAME, "cid": cid, "k": -1, "panic": false, "part": if w == 0 { "re" } else { "im" }, "post": jtri(&m, if w == 0 { Part::Re } else { Part::Im }),
                                      "sub": want["sub"], "main": want["main"], "sup": want["sup"]})); } }
                    Some(m) }
         Err(msg) => { out.ev(json!({"op": "built", "ctor": gets(case, "ctor"), "ty": T::NAME, "cid": cid, "k": -1, "panic": true, "msg": msg})); None }
@@ -58,7 +58,7 @@ fn dense_case(tj: &Value) -> Vec<Vec<(f64, f64)>> {
 }
 
 // ------------------------------------------------------------------ histories
-enum Res<T> { None, T(Tridiagonal<T>), V(Vector<T>), S(T), N(usize), Diags(Vector<T>, Vector<T>, Vector<T>), M(ohsl::Matrix<T>) }
+enum Res<T> { None, T(Tridiagonal<T>), V(Vector<T>), S(T), N(usize), Diags(Vector<T>, Vector<T>, Vector<T>), M(ohsl::Matrix<T>), Det(T), X(Vector<T>), D(Vec<(i64, i64)>) }
 
 fn argx<T: BE>(op: &Value, k: &str) -> T { let ki = format!("{}i", k); scal::<T>(&op[k], if T::CX { op.get(&ki) } else { None }) }
 
@@ -99,6 +99,18 @@ fn step<T: BE>(m: &mut Tridiagonal<T>, op: &Value) -> Result<Res<T>, String> {
             "add_scalar_assign" => { *m += argx::<T>(op, "s"); Res::None }
             "sub_scalar_assign" => { *m -= argx::<T>(op, "s"); Res::None }
             "matvec" => { let v = vec_of::<T>(&op["v"], if T::CX { op.get("vi") } else { None }); Res::V(if own { m.clone() * v } else { &*m * &v }) }
+            "resize" => { m.resize(getu(op, "n")); Res::None }
+            "det" => Res::Det(m.det()),
+            "solve" => { let r = vec_of::<T>(&op["r"], if T::CX { op.get("ri") } else { None }); Res::X(m.solve(&r)) }
+            // all reads through the index operator
+            "dense" => { let n = m.size(); let mut d = vec![(0i64, 0i64); n * n];
+                for i in 0..n { for j in i.saturating_sub(1)..(i + 2).min(n) { d[i * n + j] = m[(i, j)].to_ri(); } } Res::D(d) }
+            // re-binding: the object is replaced by the result of an operator applied to it
+            "rebind_neg" => { let t = std::mem::replace(m, Tridiagonal::empty()); *m = -t; Res::None }
+            "rebind_add" => { let t = std::mem::replace(m, Tridiagonal::empty()); *m = t + tri_from::<T>(&op["b"], "vecs"); Res::None }
+            "rebind_sub" => { let t = std::mem::replace(m, Tridiagonal::empty()); *m = t - tri_from::<T>(&op["b"], "vecs"); Res::None }
+            "rebind_mul" => { let t = std::mem::replace(m, Tridiagonal::empty()); *m = t * argx::<T>(op, "s"); Res::None }
+            "rebind_div" => { let t = std::mem::replace(m, Tridiagonal::empty()); *m = t / argx::<T>(op, "s"); Res::None }
             other => tool_error(&format!("unknown tridiag op {}", other)),
         }
     })
@@ -112,10 +124,46 @@ fn run_hist_from<T: BE>(case: &Value, out: &mut Out, k0: usize) {
         let name = gets(op, "op");
         let pre = [jtri(&m, Part::Re), jtri(&m, Part::Im)];
         let r = step(&mut m, op);
-        let post = [jtri(&m, Part::Re), jtri(&m, Part::Im)];
+        let post = if m.size() == 0 { [pre[0].clone(), pre[1].clone()] } else { [jtri(&m, Part::Re), jtri(&m, Part::Im)] };   // (a rebind that panicked leaves the placeholder)
         let panic = r.is_err();
+        let r_msg: Option<String> = r.as_ref().err().cloned();
         let res = r.unwrap_or(Res::None);
-        let base = |w: usize| -> Value { json!({"op": name, "ty": T::NAME, "cid": cid, "k": k, "panic": panic, "pre": pre[w], "post": post[w], "part": if w == 0 { "re" } else { "im" }}) };
+        let seq = gets(case, "kind") == "seq";
+        let base = |w: usize| -> Value { let mut e = json!({"op": name, "ty": T::NAME, "cid": cid, "k": k, "panic": panic, "pre": pre[w], "post": post[w], "part": if w == 0 { "re" } else { "im" }});
+            if seq { e["seq"] = json!(true); } e };
+        // determinant / solve on the CURRENT state of the object (sequences)
+        if name == "det" || name == "solve" {
+            let mut e = base(0); if let Some(o) = e.as_object_mut() { o.remove("post"); o.remove("part"); }
+            let n = getu(&pre[0], "n");
+            if T::CX { e["prei"] = pre[1].clone(); }
+            if name == "det" {
+                if T::NAME == "rat" { e["rq"] = match &res { Res::Det(d) => to_rat(d).map(|p| jrat(p.0)).unwrap_or(json!([BAD, 1])), _ => json!([BAD, 1]) }; }
+                else {
+                    let mut tj = pre[0].clone(); for f in ["sub", "main", "sup"] { let fi = format!("{}i", f); tj[fi.as_str()] = pre[1][f].clone(); }
+                    e["op"] = json!("det_units"); e["cxf"] = json!(T::CX); e["n"] = json!(n);
+                    e["units"] = json!(det_units_of(&dense_case(&tj), if let Res::Det(d) = &res { Some(d.to_c()) } else { None }));
+                }
+                out.ev(e);
+            } else if T::NAME == "rat" {
+                let msg = match &r_msg { Some(s) => s.clone(), None => String::new() };
+                e["r"] = op["r"].clone(); e["msg"] = json!(msg); e["zero"] = json!(panic && mentions_zero(&msg));
+                let conv: Option<Vec<(Rat, bool)>> = if let Res::X(x) = &res { x.vec.iter().map(to_rat).collect() } else { None };
+                let scaled = conv.and_then(|v| common_den(&v.iter().map(|p| p.0).collect::<Vec<Rat>>(), LIM));
+                match scaled { Some((xs, l)) => { e["xs"] = Value::from(xs); e["L"] = json!(l); } None => { e["xs"] = Value::from(vec![BAD; n]); e["L"] = json!(BAD); } }
+                e["imzero"] = json!(true);
+                out.ev(e);
+            } else {
+                // floats: backward-error units against the logged current state; the trace spec demands the bound where
+                // its model state is strictly diagonally dominant
+                let mut tj = pre[0].clone(); for f in ["sub", "main", "sup"] { let fi = format!("{}i", f); tj[fi.as_str()] = pre[1][f].clone(); }
+                let dense = dense_case(&tj);
+                let rc: Vec<(f64, f64)> = vec_of::<T>(&op["r"], if T::CX { op.get("ri") } else { None }).vec.iter().map(|x| x.to_c()).collect();
+                let su = if let Res::X(x) = &res { backward_units(&dense, &x.vec.iter().map(|v| v.to_c()).collect::<Vec<_>>(), &rc) } else { SAT };
+                e["op"] = json!("solve_dd"); e["units"] = json!(su); e["cxf"] = json!(T::CX); e["n"] = json!(n);
+                out.ev(e);
+            }
+            continue;
+        }
         if T::CX && name == "matvec" {
             let mut e = base(0); e["op"] = json!("matvec_cx"); e["prei"] = pre[1].clone();
             e["v"] = op["v"].clone(); e["vi"] = op.get("vi").cloned().unwrap_or_else(|| zeros_like(&op["v"]));
@@ -132,7 +180,8 @@ fn run_hist_from<T: BE>(case: &Value, out: &mut Out, k0: usize) {
             let pw = if w == 0 { Part::Re } else { Part::Im };
             let mut e = base(w);
             for key in ["i", "j", "n", "form"] { if let Some(v) = op.get(key) { e[key] = v.clone(); } }
-            let factor = matches!(name, "mul_scalar" | "div_scalar" | "mul_assign" | "div_assign" | "lmul_f64");
+            if name == "resize" { e["n2"] = op["n"].clone(); }
+            let factor = matches!(name, "mul_scalar" | "div_scalar" | "mul_assign" | "div_assign" | "lmul_f64" | "rebind_mul" | "rebind_div");
             for key in ["x", "lo", "di", "up", "s", "v", "sub", "main", "sup"] {
                 if let Some(v) = op.get(key) {
                     let ki = format!("{}i", key);
@@ -147,10 +196,11 @@ fn run_hist_from<T: BE>(case: &Value, out: &mut Out, k0: usize) {
                 Res::N(a) => e["rn"] = json!(a),
                 Res::Diags(a, b, c) => { e["rsub"] = jvec(a, pw); e["rmain"] = jvec(b, pw); e["rsup"] = jvec(c, pw); }
                 Res::M(d) => e["rm"] = jmat(d, pw),
-                Res::None => {}
+                Res::D(d) => { let n = getu(&pre[0], "n"); e["rm"] = json!({"r": n, "c": n, "d": d.iter().map(|p| part(*p, pw)).collect::<Vec<i64>>()}); }
+                Res::None | Res::Det(_) | Res::X(_) => {}
             }
             if panic {   // fields the trace spec may look at must exist
-                match name { "get" => e["ri"] = json!(BAD), "matvec" => e["rv"] = json!([]), "convert" => e["rm"] = json!({"r": 0, "c": 0, "d": []}), "size" => e["rn"] = json!(BAD),
+                match name { "get" => e["ri"] = json!(BAD), "matvec" => e["rv"] = json!([]), "convert" | "dense" => e["rm"] = json!({"r": 0, "c": 0, "d": []}), "size" => e["rn"] = json!(BAD),
                     "diags" => { e["rsub"] = json!([]); e["rmain"] = json!([]); e["rsup"] = json!([]); }
                     "clone" | "neg" | "add" | "sub" | "mul_scalar" | "div_scalar" | "transpose" | "lmul_f64" => e["rt"] = post[w].clone(), _ => {} }
             }
@@ -174,6 +224,14 @@ fn to_rat<T: BE>(x: &T) -> Option<(Rat, bool)> {
     let any: &dyn std::any::Any = x;
     if let Some(r) = any.downcast_ref::<Rat>() { return Some((*r, true)); }
     let (re, im) = x.to_c(); f64_to_rat(re).map(|r| (r, im == 0.0))
+}
+/// determinant: the recurrence in double-double, error in units of eps * F_n (recurrence on absolute values)
+fn det_units_of(dense: &[Vec<(f64, f64)>], det: Option<(f64, f64)>) -> i64 {
+    let n = dense.len(); let c = |p: (f64, f64)| CDD::from(p.0, p.1);
+    let (mut f0, mut f1) = (CDD::from(1.0, 0.0), c(dense[0][0])); let (mut a0, mut a1) = (1.0f64, c(dense[0][0]).abs());
+    for j in 1..n { let f2 = c(dense[j][j]).mul(f1).sub(c(dense[j][j - 1]).mul(c(dense[j - 1][j])).mul(f0));
+        let a2 = c(dense[j][j]).abs() * a1 + c(dense[j][j - 1]).abs() * c(dense[j - 1][j]).abs() * a0; f0 = f1; f1 = f2; a0 = a1; a1 = a2; }
+    match det { Some((re, im)) => if re.is_finite() && im.is_finite() { units(CDD::from(re, im).sub(f1).abs(), f64::EPSILON * a1) } else { SAT }, None => SAT }
 }
 fn mentions_zero(msg: &str) -> bool { msg.to_lowercase().contains("zero") }
 
@@ -210,12 +268,7 @@ fn run_sol<T: BE>(case: &Value, out: &mut Out) {
         let rc: Vec<(f64, f64)> = r.vec.iter().map(|x| x.to_c()).collect();
         let su = match &sol { Ok(x) => backward_units(&dense, &x.vec.iter().map(|v| v.to_c()).collect::<Vec<_>>(), &rc), Err(_) => SAT };
         emit(out, &mut k, json!({"op": "solve_units", "n": n, "cxf": T::CX, "panic": panic, "units": su}));
-        // determinant: the recurrence in double-double, error in units of eps * F_n (recurrence on absolute values)
-        let c = |p: (f64, f64)| CDD::from(p.0, p.1);
-        let (mut f0, mut f1) = (CDD::from(1.0, 0.0), c(dense[0][0])); let (mut a0, mut a1) = (1.0f64, c(dense[0][0]).abs());
-        for j in 1..n { let f2 = c(dense[j][j]).mul(f1).sub(c(dense[j][j - 1]).mul(c(dense[j - 1][j])).mul(f0));
-            let a2 = c(dense[j][j]).abs() * a1 + c(dense[j][j - 1]).abs() * c(dense[j - 1][j]).abs() * a0; f0 = f1; f1 = f2; a0 = a1; a1 = a2; }
-        let du = match &det { Ok(d) => { let (re, im) = d.to_c(); if re.is_finite() && im.is_finite() { units(CDD::from(re, im).sub(f1).abs(), f64::EPSILON * a1) } else { SAT } } Err(_) => SAT };
+        let du = det_units_of(&dense, det.as_ref().ok().map(|d| d.to_c()));
         emit(out, &mut k, json!({"op": "det_units", "n": n, "cxf": T::CX, "panic": det.is_err(), "units": du}));
     }
     // product, conversion, accessors on the same matrix (integer data only)
@@ -229,7 +282,7 @@ fn run_sol<T: BE>(case: &Value, out: &mut Out) {
 }
 
 pub fn exec(case: &Value, out: &mut Out) {
-    let hist = gets(case, "kind") == "hist";
+    let hist = matches!(gets(case, "kind"), "hist" | "seq");
     match (gets(case, "ty"), hist) {
         ("rat", true) => run_hist_from::<Rat>(case, out, 0), ("f64", true) => run_hist_from::<f64>(case, out, 0), ("cx", true) => run_hist_from::<Cmplx>(case, out, 0),
         ("rat", false) => run_sol::<Rat>(case, out), ("f64", false) => run_sol::<f64>(case, out), ("cx", false) => run_sol::<Cmplx>(case, out),
@@ -376,5 +429,82 @@ pub fn gen(tier: &str, seed: u64, out: &mut Out) {
                 push(out, c);
             }
         }
+        // (e) sequences on one object: det / solve / product / reads before and after EVERY mutating operation
+        for ty in TYS { for _rep in 0..(if quick { 1 } else { 4 }) {
+            let mut mag = 3i64; let mut best = seq_case(&mut rng, n, ty, mag);
+            for tries in 0..12 { if best.1 >= 0.8 { break; } if tries % 2 == 1 && mag > 1 { mag -= 1; } let c = seq_case(&mut rng, n, ty, mag); if c.1 > best.1 { best = c; } }
+            push(out, best.0);
+        } }
     }
+}
+
+// ------------------------------------------------------------------ sequences on ONE object (stale internal state)
+/// integer simulation of the three diagonals, used ONLY to keep generated magnitudes inside what TLC can decide
+struct Sim { sub: Vec<i64>, main: Vec<i64>, sup: Vec<i64> }
+impl Sim {
+    fn apply(&mut self, op: &Value) {
+        let s = op.get("s").and_then(|v| v.as_i64()).unwrap_or(1); let x = op.get("x").and_then(|v| v.as_i64()).unwrap_or(0);
+        let all = |t: &mut Sim, f: &dyn Fn(i64) -> i64| { for v in t.sub.iter_mut().chain(t.main.iter_mut()).chain(t.sup.iter_mut()) { *v = f(*v); } };
+        let with = |t: &mut Sim, b: &Value, sg: i64| { let (bs, bm, bp) = (ivec(&b["sub"]), ivec(&b["main"]), ivec(&b["sup"]));
+            for k in 0..t.main.len() { t.main[k] += sg * bm[k]; } for k in 0..t.sub.len() { t.sub[k] += sg * bs[k]; t.sup[k] += sg * bp[k]; } };
+        match gets(op, "op") {
+            "set" => { let (i, j) = (getu(op, "i"), getu(op, "j")); if i == j { self.main[i] = x; } else if i == j + 1 { self.sub[j] = x; } else { self.sup[i] = x; } }
+            "transpose_in_place" => std::mem::swap(&mut self.sub, &mut self.sup),
+            "resize" => { let n = getu(op, "n"); self.sub = vec![0; n - 1]; self.main = vec![0; n]; self.sup = vec![0; n - 1]; }
+            "add_scalar_assign" => all(self, &|v| v + s), "sub_scalar_assign" => all(self, &|v| v - s),
+            "mul_assign" | "rebind_mul" => all(self, &|v| v * s), "div_assign" | "rebind_div" => all(self, &|v| v / s),
+            "rebind_neg" => all(self, &|v| -v),
+            "rebind_add" => with(self, &op["b"], 1), "rebind_sub" => with(self, &op["b"], -1),
+            _ => {}
+        }
+    }
+}
+fn probes(rng: &mut StdRng, sim: &Sim, exact: bool, cx: bool, ops: &mut Vec<Value>) -> bool {
+    let n = sim.main.len(); let r = rv(rng, n, -5, 5);
+    let fit = !exact || fits_tlc(&sim.sub, &sim.main, &sim.sup, &r);
+    if fit { ops.push(json!({"op": "det"})); let mut o = json!({"op": "solve", "r": r}); if cx { o["ri"] = Value::from(rv(rng, n, -5, 5)); } ops.push(o); }
+    let mut mv = json!({"op": "matvec", "form": if rng.gen_bool(0.5) { "own" } else { "ref" }, "v": rv(rng, n, -3, 3)}); if cx { mv["vi"] = Value::from(rv(rng, n, -3, 3)); }
+    ops.push(mv); ops.push(json!({"op": "dense"})); ops.push(json!({"op": "convert"}));
+    fit
+}
+/// probes, then EVERY mutating operation (and every re-binding through an operator result), each followed by the probes.
+/// Float sequences start strictly diagonally dominant and use small updates, so that most states stay dominant.
+fn seq_case(rng: &mut StdRng, n: usize, ty: &str, mag: i64) -> (Value, f64) {
+    let cx = ty == "cx"; let exact = ty == "rat";
+    let mut tri = rand_tri(rng, n, -mag, mag, cx);
+    if !exact { let m: Vec<i64> = (0..n).map(|_| rng.gen_range(24i64..=40) * if rng.gen_bool(0.5) { 1 } else { -1 }).collect(); tri["main"] = Value::from(m); }
+    let mut sim = Sim { sub: ivec(&tri["sub"]), main: ivec(&tri["main"]), sup: ivec(&tri["sup"]) };
+    let mut ops = vec![]; let (mut fitn, mut tot) = (0usize, 0usize);
+    let mut probe = |rng: &mut StdRng, sim: &Sim, ops: &mut Vec<Value>| { tot += 1; if probes(rng, sim, exact, cx, ops) { fitn += 1; } };
+    probe(rng, &sim, &mut ops);
+    let small = |rng: &mut StdRng| -> i64 { let v = rng.gen_range(1..=mag.max(1)); if rng.gen_bool(0.5) { v } else { -v } };
+    let mut order: Vec<usize> = (0..14).collect(); for i in (1..order.len()).rev() { order.swap(i, rng.gen_range(0..=i)); }
+    for pick in order {
+        let cn = sim.main.len();
+        let inb = |rng: &mut StdRng| -> (usize, usize) { let i = rng.gen_range(0..cn); (i, rng.gen_range(i.saturating_sub(1)..=(i + 1).min(cn - 1))) };
+        let diag = |rng: &mut StdRng, i: usize, exact: bool| -> Value { let x = if exact { let v = rng.gen_range(1..=mag.max(1)) * 2; if rng.gen_bool(0.5) { v } else { -v } } else { rng.gen_range(24i64..=40) }; json!({"op": "set", "i": i, "j": i, "x": x, "xi": rng.gen_range(-2i64..=2), "quiet": true}) };
+        let mut batch: Vec<Value> = match pick {
+            0 | 1 => { let (i, j) = inb(rng); vec![json!({"op": "set", "i": i, "j": j, "x": small(rng), "xi": small(rng)})] }
+            2 | 3 => vec![json!({"op": "transpose_in_place"})],
+            4 => vec![json!({"op": "add_scalar_assign", "s": small(rng), "si": small(rng)})],
+            5 => vec![json!({"op": "sub_scalar_assign", "s": small(rng), "si": small(rng)})],
+            6 => vec![json!({"op": "mul_assign", "s": ([2i64, -2, 3][rng.gen_range(0..3)])})],
+            7 => { let s = [2i64, -2, 3][rng.gen_range(0..3)]; vec![json!({"op": "mul_assign", "s": s}), json!({"op": "div_assign", "s": s})] }
+            8 => vec![json!({"op": "rebind_neg"})],
+            9 => vec![json!({"op": "rebind_add", "b": rand_tri(rng, cn, -2, 2, cx)})],
+            10 => vec![json!({"op": "rebind_sub", "b": rand_tri(rng, cn, -2, 2, cx)})],
+            11 => vec![json!({"op": "rebind_mul", "s": ([2i64, -2, 3][rng.gen_range(0..3)])})],
+            12 => { let s = [2i64, -2, 3][rng.gen_range(0..3)]; vec![json!({"op": "rebind_mul", "s": s}), json!({"op": "rebind_div", "s": s})] }
+            _ => { let n2 = rng.gen_range(1..=(cn + 1).min(12)); let mut v = vec![json!({"op": "resize", "n": n2})]; for i in 0..n2 { v.push(diag(rng, i, exact)); }
+                   for i in 0..n2.saturating_sub(1) { v.push(json!({"op": "set", "i": i + 1, "j": i, "x": small(rng), "xi": small(rng), "quiet": true})); v.push(json!({"op": "set", "i": i, "j": i + 1, "x": small(rng), "xi": small(rng), "quiet": true})); } v }
+        };
+        for o in batch.iter_mut() {
+            if !cx { if let Some(m) = o.as_object_mut() { m.remove("xi"); m.remove("si"); } }
+            let quiet = o.get("quiet").is_some(); if let Some(m) = o.as_object_mut() { m.remove("quiet"); }
+            sim.apply(o); ops.push(o.clone());
+            if !quiet { probe(rng, &sim, &mut ops); }
+        }
+        if pick == 13 { probe(rng, &sim, &mut ops); }
+    }
+    (json!({"kind": "seq", "ty": ty, "ctor": (["vecs", "vectors", "index"][rng.gen_range(0..3)]), "tri": tri, "ops": ops}), fitn as f64 / tot.max(1) as f64)
 }
